@@ -281,9 +281,24 @@ def scenario_threads(seed, nthreads, per):
     return ["threads %d %d %d" % (h, len(shared), total)]
 
 
+def scenario_pressure(seed, n, k):
+    r = Rng(seed)
+    vals = []
+    acc = 0
+    for i in range(n):
+        vals.append(r.next() & 1048575)
+        if i % k == 0:
+            acc += 1
+    acc += 2 * (n * 2)
+    h = 31
+    for v in reversed(vals):
+        h = mix(h, v)
+    return ["pressure %d %d %d" % (h, n, acc)]
+
+
 SCENARIOS = [scenario_list, scenario_tree, scenario_churn, scenario_large, scenario_strings, scenario_closures, scenario_cycles,
-             scenario_interior, scenario_global, scenario_threads]
-NAMES = ["list", "tree", "churn", "large", "strings", "closures", "cycles", "interior", "global", "threads"]
+             scenario_interior, scenario_global, scenario_threads, scenario_pressure]
+NAMES = ["list", "tree", "churn", "large", "strings", "closures", "cycles", "interior", "global", "threads", "pressure"]
 
 
 def expected(sc, seed, n, k):
